@@ -127,6 +127,6 @@ func checkC01(r *Run) {
 
 func init() {
 	register(&Property{ID: "C01", Level: "exploration",
-		Rule: "one evaluation = one plugin process run on a generated CodeGeneratorRequest (curated corpus in same- and separate-package layout, isolated exotic shapes, seeded random descriptors x configurations x delivery channel) judged on exit status, wire-level stdout scan, file name, license, package clause, function set, and `go build` of the generated file together with protoc-gen-gogo's output and a register file that assigns the three functions to exactly typed function variables; distinct = distinct (descriptor, configuration, layout) cases",
+		Rule:  "one evaluation = one plugin process run on a generated CodeGeneratorRequest (curated corpus in same- and separate-package layout, isolated exotic shapes, seeded random descriptors x configurations x delivery channel) judged on exit status, wire-level stdout scan, file name, license, package clause, function set, and `go build` of the generated file together with protoc-gen-gogo's output and a register file that assigns the three functions to exactly typed function variables; distinct = distinct (descriptor, configuration, layout) cases",
 		Check: checkC01})
 }
